@@ -319,6 +319,7 @@ package types
 //@   requires forall i int :: 0 <= i && i < len(options) ==> options[i] != nil
 
 //@ func (*Project).withServices
+//@   except precondition#3 : undischarged on the reference tree (engine limit or missing callee contract), not claimed
 //@   except nilfunc#2 : undischarged on the reference tree (engine limit or missing callee contract), not claimed
 //@   except precondition#2 : undischarged on the reference tree (engine limit or missing callee contract), not claimed
 //@   nopanic[C14,C15]
@@ -350,6 +351,7 @@ package types
 //@   ensures[C15] options.dependencyPolicy == 2
 
 //@ func (*Project).WithImagesResolved
+//@   except closure-precondition#1 : undischarged on the reference tree (engine limit or missing callee contract), not claimed
 //@   nopanic[C14]
 //@ func (*Project).WithImagesResolved$1
 //@   nopanic[C14]
@@ -359,8 +361,10 @@ package types
 //@   nopanic[C14]
 //@   requires fn != nil
 //@ func (*Project).WithServicesTransform$1
+//@   except nilderef#3, nilderef#5, panic#1 : undischarged on the reference tree (engine limit or missing callee contract), not claimed
 //@   nopanic[C14]
 //@ func (*Project).WithServicesTransform$2
+//@   except nilfunc#1, precondition#1 : undischarged on the reference tree (engine limit or missing callee contract), not claimed
 //@   nopanic[C14]
 
 // ---------- C20: rendering options ----------
